@@ -101,6 +101,19 @@ def check_cagrad(ctx: Ctx, J, Jt, dtype, s2, fam, c):
     w = tensor_to_fr(A.weighting(Jt))
     l1 = sum(abs(v) for v in w)
     allow = [Fr(1, 10 ** 4) * s2 * max(l1, Fr(1, m)) for _ in range(m)]      # conic solver's tolerance, scaled
+    # kernel contract behind `cagrad_nonconflict_of_optimality`: the solver's answer w (recovered from the final
+    # weights omega = e + lambda w, sum(w) = 1) satisfies the first-order condition (G omega)·w <= (G omega)_i
+    lam = sum(w) - 1
+    if lam > Fr(1, 10 ** 6) and s2 > 0:
+        wsol = [(wi - Fr(1, m)) / lam for wi in w]
+        gom = [v / s2 for v in fr_list(ask_agg(ctx.driver, "matvec", J, x=xs)[1])]        # G omega = J x / s^2
+        lhs = sum(a * b for a, b in zip(gom, wsol))
+        gmax = max(maxabs(gom), Fr(1, 10 ** 30))
+        ctx.count("cagrad_optimality_checked")
+        ctx.cov["cagrad_worst_optimality_gap"] = max(ctx.cov.get("cagrad_worst_optimality_gap", 0.0),
+                                                     float((lhs - min(gom)) / gmax))
+        if lhs - min(gom) > Fr(1, 100) * gmax:
+            ctx.count("cagrad_optimality_contract_violated")       # diagnostic: the conic solver is a kernel
     sl = slack(ctx, J, xs, allow)
     if min(sl) < 0:
         i = sl.index(min(sl))
